@@ -6,7 +6,7 @@ position, and compiled with and without tree::simplify; both sides are run on
 the engine and must yield identical results (ordered, or as multisets where
 the rewrite changes the order of alternatives) or the same error class.
 """
-import ast as _ast, itertools, re
+import os, ast as _ast, itertools, re
 import common, drv, zwmodel, zwgen
 import c03
 from zwgen import I, W, cat
@@ -190,6 +190,42 @@ def _comment_worker(d, chunk, extra):
     return out
 
 
+# ---------------------------------------------------------------- directives on values of every type (DWARF vocabulary)
+DW_SOURCES = ["entry (pos == 1)", "entry attribute ?AT_decl_line", "entry attribute ?AT_byte_size", "entry attribute ?AT_name", "entry attribute ?AT_type",
+              "entry attribute ?AT_encoding", "entry ?AT_decl_line @AT_decl_line", "entry @AT_name", "symbol", "symbol label", "symbol address", "symbol size",
+              "entry ?(@AT_location) @AT_location", "entry ?(@AT_location) @AT_location elem", "entry label", "entry offset", "entry attribute form",
+              "entry abbrev", "unit", "entry address", "DW_TAG_variable", "(1, 0x10, -1)", '"str"', "[1]", "true"]
+DW_EXPANSION = {"s": "", "d": "value", "x": "value hex", "o": "value oct", "b": "value bin"}
+
+
+def _dwdir_worker(d, chunk, extra):
+    """`V "%d"` vs `V "%( value %)"` etc. for value sources V of every type: results and diagnostics must agree."""
+    out = {"n": 0, "bad": []}
+    for f in extra["files"]:
+        cmds = []
+        for v, dch in chunk:
+            cmds.append(drv.run_cmd('%s "<%%%s>"' % (v, dch), i="d1", lim=60))
+            cmds.append(drv.run_cmd('%s "<%%( %s %%)>"' % (v, DW_EXPANSION[dch]), i="d1", lim=60))
+        rs = d.batch(["open id=d1 path=" + drv.hx(f)] + cmds + ["close id=d1"])[1:-1]
+        for k, (v, dch) in enumerate(chunk):
+            a, b = rs[2 * k], rs[2 * k + 1]
+            out["n"] += 1
+            if a.crash or b.crash:
+                cr = a.crash or b.crash
+                out["bad"].append(("dwdir:%s|%s|%s" % (os.path.basename(f), v, dch), "`%s \"%%%s\"` on %s died: %s %s" % (v, dch, f, cr[0], cr[1][-300:]), {"dwdir": [v, dch], "file": f}))
+                d.batch(["open id=d1 path=" + drv.hx(f)])
+                break
+            ea = sorted(set(l.split("`")[0][:40] for l in a.stderr.decode("latin-1").splitlines()))
+            eb = sorted(set(l.split("`")[0][:40] for l in b.stderr.decode("latin-1").splitlines()))
+            if a.lines != b.lines or bool(ea) != bool(eb):
+                out["bad"].append(("dwdir:%s|%s|%s" % (os.path.basename(f), v, dch),
+                                   "on %s, `%s \"<%%%s>\"` yields %r%s but its expansion `%s \"<%%( %s %%)>\"` yields %r%s" % (
+                                       f, v, dch, a.lines[:3], " with diagnostics" if ea else "", v, DW_EXPANSION[dch], b.lines[:3], " with diagnostics" if eb else ""),
+                                   {"dwdir": [v, dch], "file": f}))
+    out["bad"] = out["bad"][:12]
+    return out
+
+
 def extra_corpus():
     """Programs that exercise strings, escapes and directives (the Z_3 corpus has few literals)."""
     vals = [I(0), I(255, "hex"), I(-8, "oct"), I(5, "bin"), ("w", "true"), ("str", b"a\"b"), ("str", b"x\\y%z"), ("str", b"\x00\x01\xff"),
@@ -354,6 +390,12 @@ def _worker(d, task, extra):
 def replay(case):
     ctx = common.Ctx("C15", "quick")
     b = ctx.bin("zwdrv")
+    if "dwdir" in case:
+        d = drv.Drv(b, "full")
+        try:
+            return bool(_dwdir_worker(d, [tuple(case["dwdir"])], {"files": [case["file"]]})["bad"])
+        finally:
+            d.close()
     if "comment" in case:
         d = drv.Drv(b, "core")
         try:
@@ -412,6 +454,14 @@ def main(ctx):
         kinds["escape-spelling"] = kinds.get("escape-spelling", 0) + r["n"]
         for key, what, case in r["bad"]:
             ctx.violation(key, what, case)
+    dfiles = [f for f in (["/repo/tests/typedef.o", "/repo/tests/bitcount.o"] + (["/repo/tests/nontrivial-types.o", "/repo/tests/dwz-partial"] if thorough else []))
+              if os.path.exists(f)]
+    dcases = [(v, dch) for v in DW_SOURCES for dch in "sdxob"]
+    for r in common.pmap(ctx, _dwdir_worker, common.chunks(dcases, 8), bins["zwdrv"], "full", extra={"files": dfiles}, timeout=120):
+        ctx.count("directive_on_dwarf_values", r["n"])
+        kinds["directive-dwarf"] = kinds.get("directive-dwarf", 0) + r["n"]
+        for key, what, case in r["bad"]:
+            ctx.violation(key, what, case)
     cbounds = (4, 2) if thorough else (3, 2)
     for r in common.pmap(ctx, _comment_worker, common.chunks(comment_cases(*cbounds), 300), bins["zwdrv"], "core", timeout=60):
         ctx.count("comment_programs", r["n"])
@@ -428,7 +478,7 @@ def main(ctx):
             ctx.violation(key, what, case)
     t = zwgen.by_size(2)[2][20][1]
     ctx.sample({"program": zwmodel.render(t), "rewrites": [v[2] for v in list(variants(t))[:6]]})
-    n = ctx.counts.get("rewrites_executed", 0) + ctx.counts.get("escape_spellings", 0) + ctx.counts.get("simplifier_shapes", 0) + ctx.counts.get("comment_programs", 0)
+    n = ctx.counts.get("rewrites_executed", 0) + ctx.counts.get("escape_spellings", 0) + ctx.counts.get("simplifier_shapes", 0) + ctx.counts.get("comment_programs", 0) + ctx.counts.get("directive_on_dwarf_values", 0)
     cov = {
         "states": n + ctx.counts.get("programs", 0),
         "transitions": n + ctx.counts.get("programs", 0),
@@ -439,7 +489,7 @@ def main(ctx):
         "rule": "state = (program, one rewrite at one position) run on the engine and compared with the unrewritten program on the same inputs; "
                 "distinct = distinct (program, rewrite, position); distinct_outcomes = rewrites applied per kind",
         "bounds": {"corpora": "Z_3 transformers up to 3 nodes (4 thorough) on inputs 0,1,2; binder programs of depth 1 (every 4th of depth 2 thorough); literal/format/infix corpus",
-                   "layouts": LAYOUTS,
+                   "layouts": LAYOUTS, "directive_sources_dwarf": DW_SOURCES,
                    "comment_bodies": {"block_alphabet": ["*", "/", "x", " ", "\"", "\\n"], "line_alphabet": ["*", "/", "#", "x", "\"", " "], "max_length": cbounds[0],
                                       "pairs_of_block_comments_with_bodies_up_to": cbounds[1]},
                    "simplifier_shapes": {"pieces": PIECES, "max_pieces": shape_bounds[0], "contexts": SHAPE_CTX, "max_pieces_in_context": shape_bounds[1],
